@@ -257,6 +257,16 @@ func (r *run) apply1(i int, op hx.Op) (skip bool, err error) {
 		return false, nil
 	case "closesnap":
 		return closeFirst("snap")
+	case "closesnapnew":
+		// closes the NEWEST open snapshot (closesnap closes the oldest)
+		for j := len(r.readers) - 1; j >= 0; j-- {
+			if r.readers[j].kind == "snap" {
+				err := r.readers[j].snap.Close()
+				r.readers = append(r.readers[:j], r.readers[j+1:]...)
+				return false, err
+			}
+		}
+		return true, nil
 	case "iter":
 		if count("iter")+count("clone") >= 2 {
 			return true, nil
@@ -269,6 +279,27 @@ func (r *run) apply1(i int, op hx.Op) (skip bool, err error) {
 		rd.it = it
 		r.readers = append(r.readers, rd)
 		return false, nil
+	case "snapiter":
+		// an iterator created ON the first open snapshot (it shows the snapshot's state and, like any
+		// iterator, keeps showing it after the snapshot itself has been closed)
+		if count("iter")+count("clone") >= 2 {
+			return true, nil
+		}
+		for _, p := range r.readers {
+			if p.kind == "snap" && len(p.excised) == 0 {
+				it, err := p.snap.NewIter(nil)
+				if err != nil {
+					return false, err
+				}
+				rd := &reader{kind: "iter", m: p.m, born: i, it: it}
+				if r.mon.removes {
+					rd.live = r.liveFiles()
+				}
+				r.readers = append(r.readers, rd)
+				return false, nil
+			}
+		}
+		return true, nil
 	case "clone":
 		if count("iter")+count("clone") >= 3 {
 			return true, nil
